@@ -50,25 +50,53 @@ var prims = []prim{
 		}},
 	{"int8", true, -128, 127,
 		func(b *codec.Buffer, v int64, tag byte) error { return b.WriteInt8(int8(v), tag) },
-		func(r *codec.Reader, tag byte) (int64, error) { var x int8; err := r.ReadInt8(&x, tag, true); return int64(x), err }},
+		func(r *codec.Reader, tag byte) (int64, error) {
+			var x int8
+			err := r.ReadInt8(&x, tag, true)
+			return int64(x), err
+		}},
 	{"uint8", false, 0, 255,
 		func(b *codec.Buffer, v int64, tag byte) error { return b.WriteUint8(uint8(v), tag) },
-		func(r *codec.Reader, tag byte) (int64, error) { var x uint8; err := r.ReadUint8(&x, tag, true); return int64(x), err }},
+		func(r *codec.Reader, tag byte) (int64, error) {
+			var x uint8
+			err := r.ReadUint8(&x, tag, true)
+			return int64(x), err
+		}},
 	{"int16", true, -32768, 32767,
 		func(b *codec.Buffer, v int64, tag byte) error { return b.WriteInt16(int16(v), tag) },
-		func(r *codec.Reader, tag byte) (int64, error) { var x int16; err := r.ReadInt16(&x, tag, true); return int64(x), err }},
+		func(r *codec.Reader, tag byte) (int64, error) {
+			var x int16
+			err := r.ReadInt16(&x, tag, true)
+			return int64(x), err
+		}},
 	{"uint16", false, 0, 65535,
 		func(b *codec.Buffer, v int64, tag byte) error { return b.WriteUint16(uint16(v), tag) },
-		func(r *codec.Reader, tag byte) (int64, error) { var x uint16; err := r.ReadUint16(&x, tag, true); return int64(x), err }},
+		func(r *codec.Reader, tag byte) (int64, error) {
+			var x uint16
+			err := r.ReadUint16(&x, tag, true)
+			return int64(x), err
+		}},
 	{"int32", true, math.MinInt32, math.MaxInt32,
 		func(b *codec.Buffer, v int64, tag byte) error { return b.WriteInt32(int32(v), tag) },
-		func(r *codec.Reader, tag byte) (int64, error) { var x int32; err := r.ReadInt32(&x, tag, true); return int64(x), err }},
+		func(r *codec.Reader, tag byte) (int64, error) {
+			var x int32
+			err := r.ReadInt32(&x, tag, true)
+			return int64(x), err
+		}},
 	{"uint32", false, 0, math.MaxUint32,
 		func(b *codec.Buffer, v int64, tag byte) error { return b.WriteUint32(uint32(v), tag) },
-		func(r *codec.Reader, tag byte) (int64, error) { var x uint32; err := r.ReadUint32(&x, tag, true); return int64(x), err }},
+		func(r *codec.Reader, tag byte) (int64, error) {
+			var x uint32
+			err := r.ReadUint32(&x, tag, true)
+			return int64(x), err
+		}},
 	{"int64", true, math.MinInt64, math.MaxInt64,
 		func(b *codec.Buffer, v int64, tag byte) error { return b.WriteInt64(v, tag) },
-		func(r *codec.Reader, tag byte) (int64, error) { var x int64; err := r.ReadInt64(&x, tag, true); return x, err }},
+		func(r *codec.Reader, tag byte) (int64, error) {
+			var x int64
+			err := r.ReadInt64(&x, tag, true)
+			return x, err
+		}},
 }
 
 const sentinel = int8(0x5A)
